@@ -70,11 +70,11 @@ func init() {
 		},
 		Bounds: func(tier string) map[string]interface{} {
 			b := map[string]interface{}{
-				"rs_decode_zero_word": "all-zero code word with free non-zero error magnitudes: two errors in the full-length GF(16) code (n=15, r=6) including position 0; single errors in GF(256) QR n=26 r=10 and DM n=12 r=7 (thorough: every position pair with position 0, three errors, GF(64) full length)",
-				"fields_multiply": "GF(16), GF(64), both GF(256): every a (concrete, split) x every b (symbolic) = all pairs; GF(1024), GF(4096): 8 blocks of 4 values of a (boundary + seeded) x every b",
+				"rs_decode_zero_word":    "all-zero code word with free non-zero error magnitudes: two errors in the full-length GF(16) code (n=15, r=6) including position 0; single errors in GF(256) QR n=26 r=10 and DM n=12 r=7 (thorough: every position pair with position 0, three errors, GF(64) full length)",
+				"fields_multiply":        "GF(16), GF(64), both GF(256): every a (concrete, split) x every b (symbolic) = all pairs; GF(1024), GF(4096): 8 blocks of 4 values of a (boundary + seeded) x every b",
 				"fields_inverse_exp_log": "all six fields, every element (symbolic inside chunks of 64): a*inv(a)=1 by the reference product, exp(log a)=a, log(exp i)=i, exp[i+1]=x*exp[i]",
-				"rs_encode": "free data: GF(16) k<=3,r<=5; GF(64) k<=2,r<=3; GF(256) QR and DM k<=2,r<=3; GF(1024)/GF(4096) k=1,r=2",
-				"rs_decode": "free data and free non-zero error magnitudes: single errors with r=2..4 in GF(16), r=2 in GF(64), one position in GF(256)/QR; error-free words in GF(16), GF(256) QR and DM (more positions in thorough)",
+				"rs_encode":              "free data: GF(16) k<=3,r<=5; GF(64) k<=2,r<=3; GF(256) QR and DM k<=2,r<=3; GF(1024)/GF(4096) k=1,r=2",
+				"rs_decode":              "free data and free non-zero error magnitudes: single errors with r=2..4 in GF(16), r=2 in GF(64), one position in GF(256)/QR; error-free words in GF(16), GF(256) QR and DM (more positions in thorough)",
 			}
 			if tier == "thorough" {
 				b["fields_multiply"] = "all six fields: every a (concrete, split) x every b (symbolic) = all pairs"
@@ -86,7 +86,7 @@ func init() {
 			"Reed-Solomon at real block sizes with free data: polynomial normalisation forks on every leading coefficient (2^k paths) and the XOR-linear syndrome identities over more than ~16 free bits do not finish in z3/cvc5 (probed)",
 			"two or more errors per block: the Euclid/Chien/Forney path with nested symbolic table lookups did not finish in 120 s even in GF(16) with r=4 (probed); not claimed",
 		},
-		Stubs: []string{"in the Reed-Solomon tasks over GF(256)+ GenericGF.Multiply is summarised as the polynomial product modulo the field polynomial; the summary is exactly what VerifC04Mul proves of the table implementation"},
+		Stubs:       []string{"in the Reed-Solomon tasks over GF(256)+ GenericGF.Multiply is summarised as the polynomial product modulo the field polynomial; the summary is exactly what VerifC04Mul proves of the table implementation"},
 		Assumptions: append([]string{"reference product refMul (shift/xor, no tables) defines multiplication in GF(2)[x]/(p)"}, commonAssumptions...),
 	}
 }
